@@ -378,6 +378,7 @@ func allPropsUnsorted() []*propInfo {
 				"C19.2 also: the rendered publish time carries its zone (zone verb or UTC conversion). C19.2 also: the payload is encoded with base64.StdEncoding. NOT decided: 'never pushed again / pushed again after the backoff' (C03/C04 behaviour), concurrency <= window as a runtime count, out-of-order endpoints.",
 			Assumptions: []string{"net/http reports transport failures as a non-nil error from Client.Do"},
 			Rules: []ruleFn{
+				{ID: "C19.6", Doc: "[dom] a pusher that has ended is removed from the service's map, so the subscription gets a new one", Run: ruleC19_6},
 				{ID: "C19.2", Doc: "[who] the pushed payload is standard base64", Run: ruleC19_2base64},
 				{ID: "C19.2", Doc: "[tab] the rendered publish time carries its zone (zone verb or UTC conversion)", Run: ruleC19_2format},
 				{ID: "C11.4", Doc: "[dom] (shared) the pusher's stream keeps its pending set exact (what is in flight counts against the window until the database says it is settled)", Run: ruleC11_4_7},
